@@ -62,11 +62,23 @@ UNIT.spec_files = list(UNIT.spec_files) + ['helpers.rs']
 # verified against the default notation, it is simply unused by this back end
 
 
-def native(workdir):
+def _search():
+    # the unit serves two properties: a failing input is looked for with the stand-in of the property being checked
+    import os
+    if os.environ.get('VERIF_PID') == 'C12':
+        import helpersearch
+        return helpersearch
     import typesearch
-    return typesearch.native(workdir)
+    return typesearch
+
+
+def native(workdir):
+    return _search().native(workdir)
 
 
 def replay_args(inp):
+    if 'trigger' in inp:
+        import helpersearch
+        return helpersearch.replay_args(inp)
     import typesearch
     return typesearch.replay_args(inp)
